@@ -276,7 +276,8 @@ static void gen_c05(G &g, u64 base_seed) {
     Json p = put_op(g, 0, 0, c);
     // payload sizes: non-multiples of 16 and of 4 bytes per fragment are the kernel's tail paths
     if (g.data.chance(1, 2)) p.set("len", (i64) ((u64) c.k * 4 * g.data.range(1, 300) - (u64) g.data.range(0, 3)));
-    if (c.k <= 6 && g.data.chance(1, g.thorough ? 40 : 120)) {
+    bool three_data = c.hd == 4 && __builtin_popcountll(xs.lost) == 3 && (xs.lost >> c.k) == 0;   // the three-data decoder: the path with scratch space
+    if (c.k <= 6 && (g.data.chance(1, g.thorough ? 40 : 120) || (three_data && g.data.chance(1, 2)))) {
         // large fragments: (1 or 2 MiB) + a tail that is not a multiple of 16 bytes
         static const int tails[] = {4, 8, 12, 0, 20, 28};
         u64 frag = ((u64) g.data.range(1, 2) << 20) + (u64) tails[g.data.below(6)];
@@ -603,7 +604,7 @@ Json gen_plan(const std::string &prop, const std::string &tier, u64 base_seed, u
     Json plan = Json::obj();
     plan.set("prop", prop).set("tier", tier).set("base_seed", (i64) base_seed).set("index", (i64) index).set("run_seed", hex64(rs));
     plan.set("xor", (index & 1) ? "portable" : "sse2");
-    if ((index & 3) == 2) plan.set("stack_kb", 768);   // a quarter of the runs execute on a small stack (callers with small thread stacks exist)
+    if ((index & 3) == 2 || prop == "C05") plan.set("stack_kb", 768);   // a quarter of the runs (all of C05's) execute on a small stack (callers with small thread stacks exist)
     { Json ik = Json::obj(); ik.set("clobber", (int) g.world.below(2)).set("layout", (int) g.world.below(2)); plan.set("isal", ik); }   // stub behaviour for this run
     if (prop == "C01" || prop == "C03") gen_roundtrip(g, false);
     else if (prop == "C19") { if (index % 4 == 3) gen_c06(g, true); else gen_roundtrip(g, true); }
